@@ -50,10 +50,20 @@ TIE = ("S: every call of the real process_peering_event (direct calls on generat
        "tie failure ('a version identifies a content'); that clean() names the resourceVersion of the judged event is compared per "
        "call; counter lts.stale_view says how the real staleness is distributed (current / older+same verdict / older+verdict differs). "
        "The Lean witnesses of the open findings F4 (residue), F10 are run through the driver (C13.run) and their claim compared with "
-       "the replay of the same scenario on the real code. NOT tied (no trace-to-label-list correspondence of whole histories): the "
-       "labels wake/wakeIssue/land/sleeping, exit, exitBegin/exitEnd, exitLost, kill, keepaliveFail (the failed keep-alive: held by the "
-       "oracle clauses C/T/X/Y on histories with injected API faults), kaIssue/kaLand of the in-flight layer (the keep-alive cancelled "
-       "by the stop: held by the oracle clauses D/D2 on histories with a slow request; corpus stop_during_slow_keepalive_*), and the "
+       "the replay of the same scenario on the real code. S on the in-flight layer (C13_KaFlight.kstep, driver op C13.kaflight): every "
+       "history that carries a slow request (generated `with_slow` + corpus stop_during_slow_keepalive_*; no faults, distinct "
+       "identities - else skipped and counted) is abstracted into ONE label list - every regular keep-alive PATCH = kaIssue at its "
+       "send time + kaLand when the server applies it (no label when it never arrives: cancelled by its client, sender killed), stop "
+       "request = exitBegin, landing of the withdrawal = exitEnd, kill, tick; every other write to the peering object (self-touches, "
+       "applied cleans, pre-set status) as `foreign` with its real content - and after EVERY label the record of every identity on the "
+       "real server and the stamp of every keep-alive really on the wire (sent, not applied, not cancelled by its client: cancellation "
+       "logged at the request) are compared with the state `kstep` reaches (a label the model does not enable = mismatch); between "
+       "the cancellation of the pinger and the landing of the withdrawal (one model step `exitEnd`) the in-flight flag of that one "
+       "identity is not compared, its record is (counters lts.kaflight*). NOT tied by a whole-history label list: the "
+       "labels wake/wakeIssue/land/sleeping, deliver (in the kaflight lists their writes are `foreign`), exit, exitLost, keepaliveFail (the "
+       "failed keep-alive: held by the oracle clauses C/T/X/Y on histories with injected API faults), exitBegin/exitEnd/kill OUTSIDE "
+       "the histories with a slow request and their effect on paused/sleeping/exiting anywhere (kaflight compares records and "
+       "requests in flight only), the named variant kstepShield (a witness about a seeded change, not the code), and the "
        "ghost nextKA/Allowed; for these the "
        "simulation oracle is the only link to the code (the stop ORDER of 26a293c is held by the oracle clauses D/H and the "
        "regressions F7, F9, exit_handler_ignores_cancel)")
@@ -164,6 +174,14 @@ TRUSTED = ["harness/sim (virtual-time loop, fake API server incl. merge-patch of
            "slow requests of the histories (sim_c13 `slow_requests`: the fake API's latency of that ONE request is raised at the moment "
            "it is sent - logged then, a closed / dead session refuses it then; once sent it arrives after latency + delay whatever "
            "its client does meanwhile, except cancel it: a cancelled request never arrives); the class of the request as for the faults",
+           "the C13.kaflight abstraction (c13.kaflight_case): sim_c13 `peer_patches` - every peering PATCH logged at the moment it is SENT "
+           "(class as for the faults, payload, whether the session refused it at once) and the time a CancelledError reached the "
+           "request itself (a request wrapped in asyncio.shield is not reached); a landing is matched to its request by sender, send "
+           "time and payload; the real status after a label is the `after` of the last applied write (the chain before/after of the "
+           "write log is checked to be gapless, else the history is skipped); the tear-down of a KILLED incarnation's tasks by the "
+           "harness is not counted as a client cancelling its request (as in the model, the request stays on the wire: the simulation "
+           "then never delivers it - the model's kaLand after a kill is never exercised by the tie); order of events of one tick: "
+           "starts, applied writes in server order, sends / stop requests, kills",
            "the history oracle's settle window W = max delivery delay + 1 s (after a change of who is live, every operator must "
            "have reacted within W)"]
 ASSUMPTIONS = ["one virtual clock shared by all operators (no clock skew between operators)",
@@ -201,7 +219,7 @@ ASSUMPTIONS = ["one virtual clock shared by all operators (no clock skew between
                "keep-alive PATCH cancelled in flight by the stop cannot land after the withdrawal (the two are sequential in one task; "
                "GENERATED since the C13f round - a stop while a slow keep-alive is in flight - and held by the oracle clauses D/D2: "
                "whatever an operator sent before its withdrawal must not put the record back after it; Lean: "
-               "withdrawn_stays_keepalive_in_flight), "
+               "withdrawn_stays_keepalive_in_flight; and tied label by label to the model's kstep on the same histories: C13.kaflight), "
                "and neither can a self-touch of the peering observer that was cancelled with it (`exitEnd` drops `inflight`); two requests "
                "that are both in flight are applied in either order - since 26a293c the self-touch and the withdrawal never are",
                "`wake` has no time guard in the model (it may fire before the deadline, with any lag outside Timely): resume_after_expiry "
@@ -1814,6 +1832,148 @@ class Collector:
             self.samples.append(sample)
 
 
+def kaflight_case(col: Any, sc: dict, tr: dict) -> list | None:
+    """The tie of the in-flight layer (`C13_KaFlight.kstep`): a history with a slow request, abstracted into a label list.
+    Every regular keep-alive PATCH (class read off payload + call context, logged when SENT: `peer_patches`) is `kaIssue i` at its
+    send time and `kaLand i` when the server applies it (the `writes` log: matched by sender, send time and payload) - or no
+    label at all when it never arrives (its client cancelled it, the sender was killed, the history ended). The stop request is
+    `exitBegin i`, the landing of the withdrawal `exitEnd i`, a kill `kill i`, time `tick d`; every OTHER write to the peering
+    object (self-touches of process_peering_event calls, applied cleans, the pre-set status) enters as `foreign j r` with its real
+    content (their own semantics are tied by C13.write / C13.stale). After every label: the record of every identity ON THE REAL
+    SERVER (the `after` of the last applied write) and the stamp of the keep-alive of every identity that is on the wire - sent,
+    not applied, not cancelled by its client (cancellation time logged at the request itself; the tasks of a KILLED process are
+    torn down by the harness: that is not a client taking its request back, the request stays on the wire as in the model).
+    `exitEnd` is ONE step in the model, in the code it is cancel the pinger -> send the withdrawal -> it lands: in between, the
+    in-flight flag of that one identity is not compared (both sides 'stopping'); its record is.
+    Returns [request, impl] or None (skipped, counted)."""
+    if not sc.get("slow_requests"):
+        return None
+
+    def skip(why: str) -> None:
+        col.count("lts.kaflight", "skipped: " + why)
+        return None
+    incs = tr["incs"]
+    idents = [i["identity"] for i in incs]
+    if len(set(idents)) != len(idents):
+        return skip("an identity is used by two incarnations")
+    if sc.get("faults") or tr.get("fault_hits") or tr.get("guard_failures") or sc.get("patch_latency") or sc.get("response_latency") \
+            or sc.get("selftouch_latency") or any(e[1] not in ("start", "stop", "kill", "edit") for e in sc["timeline"]):
+        return skip("faults / other latencies / foreign actors in the history")
+    t_end = tr["t_end"]
+    by_who = {i["who"]: i for i in incs}
+    pre = sc.get("pre_status") or {}
+    if any(wf_rec(v) is None for v in pre.values()):
+        return skip("pre-set status not well-formed")
+    ids = sorted(set(idents) | set(pre))
+    writes = tr.get("writes", [])
+    chain = pre
+    for w in writes:
+        if w["before"] != chain and not (not w["before"] and not chain):
+            return skip("a write to the peering object outside the PATCH log")
+        chain = w["after"]
+        if not isinstance(w["patch"], dict) or not isinstance(w["after"], dict) or w["who"] not in by_who \
+                or any(v is not None and wf_rec(v) is None for v in w["patch"].values()) or any(wf_rec(v) is None for v in w["after"].values()):
+            return skip("a write that is not well-formed")
+    # events: (tick, rank, seq, kind, data)
+    ev: list = []
+    for n, (k, v) in enumerate(pre.items()):
+        ev.append((0, -1, n, "pre", (k, v)))
+    for i in incs:
+        ev.append((sim_c13.ticks(i["t_start"]), 0, i["inc"], "start", i))
+        if i["t_stop_req"] is not None and i["t_stop_req"] <= t_end:
+            ev.append((sim_c13.ticks(i["t_stop_req"]), 2, i["inc"], "exitBegin", i))
+        if i["t_killed"] is not None and i["t_killed"] <= t_end:
+            ev.append((sim_c13.ticks(i["t_killed"]), 3, i["inc"], "kill", i))
+    kas: list = []                         # the regular keep-alives that went on the wire
+    land_of: dict[int, dict] = {}          # index of a write -> the keep-alive request it is
+    for n, pp in enumerate(tr.get("peer_patches", [])):
+        i = by_who.get(pp["who"])
+        if i is None or pp["t"] > t_end or pp["cls"] != "keepalive":
+            continue
+        if pp["refused_dead"] or (i["t_killed"] is not None and i["t_killed"] < pp["t"]):
+            continue                       # never on the wire: the dead / closed session refused it
+        ws = [m for m, w in enumerate(writes) if w["who"] == pp["who"] and w["t_issue"] == pp["t"] and w["patch"] == pp["status"]
+              and m not in land_of]
+        if len(ws) > 1:
+            return skip("a keep-alive request matches two writes")
+        killed_at = i["t_killed"]
+        ka = {"id": i["identity"], "t": sim_c13.ticks(pp["t"]), "landed": False, "issued": False,
+              # taken back by its own client (a cancellation in a process that was not killed at that moment)
+              "t_cancel": sim_c13.ticks(pp["t_cancel"]) if pp["t_cancel"] is not None and not (killed_at is not None and pp["t_cancel"] >= killed_at) else None,
+              "lands": bool(ws), "killed": killed_at is not None}
+        if ws:
+            land_of[ws[0]] = ka
+        kas.append(ka)
+        ev.append((ka["t"], 2, 1000 + n, "kaIssue", ka))
+    withdrawn: set = set()
+    for m, w in enumerate(writes):
+        ev.append((sim_c13.ticks(w["t"]), 1, m, "write", (m, w)))
+    ev.sort(key=lambda e: e[:3])
+    labels: list = []
+    obs: list = []
+    cmp_at: list = []
+    status: dict = {}
+    now = 0
+    ended: set = set()
+
+    def snap_obs() -> dict:
+        fl: dict = {}
+        susp = []
+        for x in ids:
+            cur = [k for k in kas if k["id"] == x and k["issued"] and not k["landed"]]
+            onwire = [k for k in cur if k["t_cancel"] is None or k["t_cancel"] > now]
+            if any(k["t_cancel"] is not None and k["t_cancel"] <= now for k in cur) and x not in ended:
+                susp.append(x)
+            fl[x] = onwire[-1]["t"] if onwire else None
+        return {"now": now, "recs": {x: (wf_rec(status[x]) if x in status else None) for x in ids}, "flight": fl, "stopping": susp}
+
+    def emit(label: list, compare: bool = True) -> None:
+        labels.append(label)
+        obs.append(snap_obs())
+        cmp_at.append(compare)
+        col.count("lts.kaflight_labels", label[0])
+    for (t, _rank, _seq, kind, data) in ev:
+        if t > now:
+            d, now = t - now, t
+            emit(["tick", d])
+        if kind == "pre":
+            status = dict(list(status.items()) + [data])
+            emit(["foreign", data[0], wf_rec(data[1])], compare=len(status) == len(pre))
+        elif kind == "start":
+            emit(["start", data["identity"], data["priority"], data["lifetime"]])
+        elif kind in ("exitBegin", "kill"):
+            emit([kind, data["identity"]])
+        elif kind == "kaIssue":
+            data["issued"] = True
+            emit(["kaIssue", data["id"]])
+        else:
+            m, w = data
+            i = by_who[w["who"]]
+            me = i["identity"]
+            if m in land_of:
+                land_of[m]["landed"] = True
+                status = w["after"]
+                emit(["kaLand", me])
+            elif w["patch"] == {me: None} and i["t_stop_req"] is not None and me not in withdrawn:
+                withdrawn.add(me)
+                ended.add(me)
+                status = w["after"]
+                emit(["exitEnd", me])
+            else:
+                items = list(w["patch"].items())
+                status = w["after"]
+                for n, (k, v) in enumerate(items):
+                    emit(["foreign", k, None if v is None else wf_rec(v)], compare=n == len(items) - 1)
+                col.count("lts.kaflight_other_writes", "own record (self-touch of a call)" if me in w["patch"] and w["patch"][me] is not None
+                          else "own record removed" if me in w["patch"] else "others' records removed (clean)")
+    for k in kas:
+        col.count("lts.kaflight_keepalives", "applied by the server" if k["landed"] else
+                  "cancelled by its client (the stop), never applied" if k["t_cancel"] is not None else
+                  "sender killed while in flight, never applied" if k["killed"] else "still in flight at the end")
+    col.count("lts.kaflight", "histories abstracted")
+    return [["C13.kaflight", TPS, ids, labels], {"obs": obs, "cmp": cmp_at}]
+
+
 def judge(sc: dict, tr: dict, full: bool = False) -> dict:
     """Everything that is decided from one history's trace: the oracle, and the requests for the Lean ties (runs in the worker)."""
     col = Collector()
@@ -1951,6 +2111,9 @@ def judge(sc: dict, tr: dict, full: bool = False) -> dict:
                                                    and not any(i["who"] == w["who"] and i["identity"] in pt for i in tr["incs"])):
             col.tie_fail(f"a write of {w['who']} to the peering object that is not a clean of others' records names a resourceVersion "
                          f"({w.get('rv_sent')}): in the model only the cleans are conditional", {"scenario": sc, "write": w})
+    kf = kaflight_case(col, sc, tr)
+    if kf is not None:
+        lts.append(kf)
     for kk in tr["ka"]:
         if kk["lifetime"] is None:
             continue
@@ -2064,6 +2227,22 @@ def run(ctx: Ctx) -> None:
         ctx.compare("C13 keep-alive period (simulation)", impl, out[1] if out and out[0] == "ok" else out, wh)
     for req, impl, out, wh in zip(lts[0], lts[1], outs[len(reqs) + len(ka_reqs):], lts[2]):
         m = out[1] if out and out[0] == "ok" else out
+        if req[0] == "C13.kaflight":
+            # after EVERY label: the records on the real server and the keep-alives on the wire against the model's state
+            for n, (o, cmp_here) in enumerate(zip(impl["obs"], impl["cmp"])):
+                mo = m[n] if isinstance(m, list) and n < len(m) else ["no-state", n]
+                o = dict(o)
+                stopping = o.pop("stopping")
+                if isinstance(mo, dict) and stopping:
+                    mo = dict(mo, flight={k: ("stopping" if k in stopping else v) for k, v in mo["flight"].items()})
+                    o["flight"] = {k: ("stopping" if k in stopping else v) for k, v in o["flight"].items()}
+                if not cmp_here and isinstance(mo, dict):
+                    continue
+                ctx.count("lts.kaflight_compared", "after " + req[3][n][0])
+                if not ctx.compare(f"C13 in-flight layer (kstep), after label #{n} {req[3][n]}", o, mo, wh) or not isinstance(mo, dict):
+                    break
+            ctx.case(key={"lts": req[0], "labels": sorted({l[0] for l in req[3]})}, nontrivial=any(l[0] == "kaIssue" for l in req[3]))
+            continue
         if req[0] == "C13.stale" and isinstance(m, dict):
             # how the real staleness is distributed: views of the current version (clean applied), older views whose clean is
             # refused - with the verdict of the current status, or with another one (the residue of F4)
